@@ -30,7 +30,18 @@ import (
 	"strings"
 )
 
+type impExt struct {
+	name    string // the Go function, translated in another want of the same package
+	coq     string
+	oracle  bool // takes the float oracle
+	errBool bool // its error result is a bool there: converted to the code 2 ("some other error") here
+}
+
 type impWant struct {
+	optRes   bool     // results of pointer-to-struct type are options (nil is None)
+	optPtr   []string // *T is (option T) everywhere, for these named types / "string"
+	ext      []impExt
+	extRecs  map[string]string // struct types whose records another want has already emitted: name -> that want's pkg
 	heap     string // name of a struct type whose pointers are addresses into a threaded heap h__ (package trie)
 	errZ     bool
 	floatAs  string // Gallina type standing for float64 in this package ("" = Z, integer-valued scores)
@@ -60,7 +71,9 @@ var impWants = []impWant{
 	{dir: "formats/fasta", pkg: "fastard", funcs: []string{"reader.read", "reader.iter", "Reader"}, errZ: true},
 	{dir: "formats/fastq", pkg: "fastq", funcs: []string{"Fastq.Write", "Fastq.MarshalText"}, join: true},
 	{dir: "formats/fastq", pkg: "fastqrd", funcs: []string{"reader.read", "reader.iter", "Reader"}, errZ: true, join: true},
-	{dir: "formats/sam", pkg: "sam", funcs: []string{"tagToText", "tagsToText", "SAM.Write", "SAM.MarshalText", "splitTag", "parseTags", "parseInts", "parseLine"}, join: true, floatAs: "F"},
+	{dir: "formats/sam", pkg: "sam", funcs: []string{"tagToText", "tagsToText", "SAM.Write", "SAM.MarshalText", "splitTag", "parseTags", "parseInts", "parseLine"}, optRes: true, join: true, floatAs: "F"},
+	{dir: "formats/sam", pkg: "samrd", funcs: []string{"ReaderHeader", "Reader"}, errZ: true, floatAs: "F", optPtr: []string{"SAM", "string"},
+		ext: []impExt{{name: "parseLine", coq: "imp_sam_parseLine", oracle: true, errBool: true}}, extRecs: map[string]string{"SAM": "sam"}},
 	{dir: "formats/smtext", pkg: "smtext", funcs: []string{"extractSingleChar", "ReadNCBI"}, errZ: true, floatAs: "F"},
 	{dir: "formats/bed", pkg: "bed", funcs: []string{"BED.Write", "BED.MarshalText", "parseLine", "reader.read", "Reader"}, join: true, errZ: true},
 	{dir: "formats/newick", pkg: "newick", funcs: []string{"quoted", "nameFromText", "nameToText", "Node.traverse", "Node.newick", "Node.MarshalText", "Node.Write"}, floatAs: "F"},
@@ -111,6 +124,11 @@ type impTr struct {
 	join     bool
 	floatAs  string
 	heapType string
+	optRes   bool
+	inResTy  bool
+	optPtr   []string
+	ext      []impExt
+	extRecs  map[string]string
 	errZ     bool // errors are Z codes (0 nil, 1 io.EOF, 2 other, 3 io.ErrUnexpectedEOF) instead of bools
 	stream   bool // the receiver is a reader over a *bufio.Reader: the stream state rd__ is threaded
 	label    string
@@ -204,6 +222,59 @@ func (t *impTr) isHeapPtr(ty types.Type) bool {
 	return ok && n.Obj().Name() == t.heapType
 }
 
+// isOptPtr: a pointer that may be nil and is modelled as an option.
+func (t *impTr) isOptPtr(ty types.Type) bool {
+	if ty == nil {
+		return false
+	}
+	p, ok := ty.(*types.Pointer)
+	if !ok {
+		return false
+	}
+	name := ""
+	switch e := p.Elem().(type) {
+	case *types.Named:
+		name = e.Obj().Name()
+	case *types.Basic:
+		name = e.Name()
+	}
+	for _, n := range t.optPtr {
+		if n == name {
+			return true
+		}
+	}
+	if t.optRes && t.inResTy {
+		if n, ok := p.Elem().(*types.Named); ok {
+			if _, ok := n.Underlying().(*types.Struct); ok {
+				return true
+			}
+		}
+	}
+	return false
+}
+
+// recPkgOf: the want whose output declares the record of this struct type.
+func (t *impTr) recPkgOf(name string) string {
+	if p, ok := t.extRecs[name]; ok {
+		return p
+	}
+	return t.pkg
+}
+
+func (t *impTr) extFn(o types.Object) *impExt {
+	if o == nil {
+		return nil
+	}
+	if f, ok := o.(*types.Func); ok && f.Type().(*types.Signature).Recv() == nil {
+		for i := range t.ext {
+			if t.ext[i].name == f.Name() {
+				return &t.ext[i]
+			}
+		}
+	}
+	return nil
+}
+
 // heapMap recognises  p.m  for a heap pointer p and returns p.
 func (t *impTr) heapMap(e ast.Expr) (ast.Expr, bool) {
 	sel, ok := e.(*ast.SelectorExpr)
@@ -240,7 +311,7 @@ func (t *impTr) ty(ty types.Type) string {
 	if n, ok := ty.(*types.Named); ok {
 		if _, ok := n.Underlying().(*types.Struct); ok {
 			t.record(n)
-			return "imp_" + t.pkg + "_" + n.Obj().Name()
+			return "imp_" + t.recPkgOf(n.Obj().Name()) + "_" + n.Obj().Name()
 		}
 	}
 	switch u := ty.Underlying().(type) {
@@ -265,6 +336,12 @@ func (t *impTr) ty(ty types.Type) string {
 		}
 		return "(list " + t.ty(u.Elem()) + ")"
 	case *types.Pointer:
+		if t.isOptPtr(ty) {
+			was := t.inResTy
+			t.inResTy = false
+			defer func() { t.inResTy = was }()
+			return "(option " + t.ty(u.Elem()) + ")"
+		}
 		return t.ty(u.Elem())
 	case *types.Map:
 		if !isSetMap(ty) && isAny(u.Elem()) {
@@ -295,6 +372,9 @@ func (t *impTr) zero(ty types.Type) string {
 	if t.isHeapPtr(ty) {
 		return "(-1)%Z"
 	}
+	if t.isOptPtr(ty) {
+		return "None"
+	}
 	if isError(ty) {
 		if t.errZ {
 			return "0%Z"
@@ -305,7 +385,7 @@ func (t *impTr) zero(ty types.Type) string {
 		if s, ok := n.Underlying().(*types.Struct); ok {
 			t.record(n)
 			s = withoutBufio(s)
-			parts := []string{"Imp_" + t.pkg + "_" + n.Obj().Name()}
+			parts := []string{"Imp_" + t.recPkgOf(n.Obj().Name()) + "_" + n.Obj().Name()}
 			for i := 0; i < s.NumFields(); i++ {
 				parts = append(parts, t.zero(s.Field(i).Type()))
 			}
@@ -363,7 +443,7 @@ func withoutBufio(s *types.Struct) *types.Struct {
 // that refers to itself (newick.Node) becomes an Inductive with projections by match.
 func (t *impTr) record(n *types.Named) {
 	name := n.Obj().Name()
-	if t.records[name] {
+	if _, ext := t.extRecs[name]; ext || t.records[name] {
 		return
 	}
 	t.records[name] = true
@@ -514,6 +594,9 @@ func (t *impTr) ex(e ast.Expr, pre *[]opener) string {
 		return t.ex(e.X, pre)
 	case *ast.Ident:
 		if e.Name == "nil" {
+			if tv, ok := t.info.Types[e]; ok && t.isOptPtr(tv.Type) {
+				return "None"
+			}
 			return "[]"
 		}
 		if e.Name == "true" || e.Name == "false" {
@@ -547,6 +630,9 @@ func (t *impTr) ex(e ast.Expr, pre *[]opener) string {
 			}
 			return "(Z.opp " + t.ex(e.X, pre) + ")"
 		case token.AND:
+			if t.isOptPtr(t.typeOf(e)) {
+				return "(Some " + t.ex(e.X, pre) + ")"
+			}
 			if cl, ok := e.X.(*ast.CompositeLit); ok && t.isHeapPtr(t.typeOf(e)) {
 				// &Trie{m: map[byte]*Trie{}}: a fresh node with an empty map
 				for _, el := range cl.Elts {
@@ -588,7 +674,7 @@ func (t *impTr) ex(e ast.Expr, pre *[]opener) string {
 				t.fail(e, "field of an unnamed struct")
 			}
 			t.record(n)
-			return fmt.Sprintf("(imp_%s_%s_%s %s)", t.pkg, n.Obj().Name(), e.Sel.Name, x)
+			return fmt.Sprintf("(imp_%s_%s_%s %s)", t.recPkgOf(n.Obj().Name()), n.Obj().Name(), e.Sel.Name, x)
 		}
 	case *ast.IndexExpr:
 		if p, ok := t.heapMap(e.X); ok {
@@ -681,7 +767,7 @@ func (t *impTr) ex(e ast.Expr, pre *[]opener) string {
 					vals[j] = t.zero(u.Field(j).Type())
 				}
 			}
-			return fmt.Sprintf("(Imp_%s_%s %s)", t.pkg, n.Obj().Name(), strings.Join(vals, " "))
+			return fmt.Sprintf("(Imp_%s_%s %s)", t.recPkgOf(n.Obj().Name()), n.Obj().Name(), strings.Join(vals, " "))
 		case *types.Array:
 			if u.Len() == 2 && len(e.Elts) == 2 {
 				return "(" + t.ex(e.Elts[0], pre) + ", " + t.ex(e.Elts[1], pre) + ")"
@@ -752,6 +838,13 @@ func (t *impTr) binary(e *ast.BinaryExpr, pre *[]opener) string {
 			return "(Z.eqb " + x + " (-1)%Z)"
 		}
 		return "(negb (Z.eqb " + x + " (-1)%Z))"
+	}
+	if id, ok := e.Y.(*ast.Ident); ok && id.Name == "nil" && (e.Op == token.EQL || e.Op == token.NEQ) && t.isOptPtr(lt) {
+		x := t.ex(e.X, pre)
+		if e.Op == token.EQL {
+			return "(match " + x + " with None => true | Some _ => false end)"
+		}
+		return "(match " + x + " with None => false | Some _ => true end)"
 	}
 	if id, ok := e.Y.(*ast.Ident); ok && id.Name == "nil" && (e.Op == token.EQL || e.Op == token.NEQ) && isError(lt) && t.errZ {
 		x := t.ex(e.X, pre)
@@ -1020,6 +1113,8 @@ func (t *impTr) call(e *ast.CallExpr, pre *[]opener) string {
 				return "2%Z"
 			}
 			return "true"
+		case "strings.HasPrefix":
+			return fmt.Sprintf("(go_has_prefix %s %s)", t.ex(e.Args[0], pre), t.ex(e.Args[1], pre))
 		case "strings.ContainsAny":
 			return fmt.Sprintf("(go_contains_any %s %s)", t.ex(e.Args[0], pre), t.ex(e.Args[1], pre))
 		case "strings.Split":
@@ -1508,7 +1603,7 @@ func (t *impTr) store(lhs ast.Expr, v string, pre *[]opener) {
 			}
 			t.record(n)
 			x := t.ex(l.X, pre)
-			t.store(l.X, fmt.Sprintf("(imp_%s_%s_with_%s %s %s)", t.pkg, n.Obj().Name(), l.Sel.Name, x, v), pre)
+			t.store(l.X, fmt.Sprintf("(imp_%s_%s_with_%s %s %s)", t.recPkgOf(n.Obj().Name()), n.Obj().Name(), l.Sel.Name, x, v), pre)
 			return
 		}
 	}
@@ -1708,6 +1803,19 @@ func (t *impTr) block(list []ast.Stmt, k string, lc *loopCtx) string {
 	case *ast.ReturnStmt:
 		var vals []string
 		for i, r := range s.Results {
+			if t.optRes && t.results != nil && i < t.results.Len() && len(s.Results) == t.results.Len() {
+				t.inResTy = true
+				opt := t.isOptPtr(t.results.At(i).Type())
+				t.inResTy = false
+				if opt {
+					if id, ok := r.(*ast.Ident); ok && id.Name == "nil" {
+						vals = append(vals, "None")
+					} else {
+						vals = append(vals, "(Some "+t.ex(r, &pre)+")")
+					}
+					continue
+				}
+			}
 			if id, ok := r.(*ast.Ident); ok && id.Name == "nil" && t.results != nil && i < t.results.Len() {
 				vals = append(vals, t.zero(t.results.At(i).Type()))
 				continue
@@ -2022,6 +2130,25 @@ func (t *impTr) assign(s *ast.AssignStmt, pre *[]opener) {
 			t.store(s.Lhs[1], "(snd "+v+")", pre)
 			return
 		}
+		if x := t.extFn(t.calleeObj(call.Fun)); x != nil && len(s.Lhs) == 2 {
+			args := []string{}
+			if x.oracle {
+				t.oracle = true
+				args = append(args, "o")
+			}
+			for _, a := range call.Args {
+				args = append(args, t.ex(a, pre))
+			}
+			v, eb := t.fresh(), t.fresh()
+			*pre = append(*pre, opener{fmt.Sprintf("go_call (%s %s) (fun '(%s, %s) => ", x.coq, strings.Join(args, " "), v, eb), ")"})
+			ev := eb
+			if x.errBool && t.errZ {
+				ev = "(if " + eb + " then 2%Z else 0%Z)"
+			}
+			t.store(s.Lhs[0], v, pre)
+			t.store(s.Lhs[1], ev, pre)
+			return
+		}
 		fn, ok := t.fns[t.calleeObj(call.Fun)]
 		if !ok {
 			t.fail(s, "multi-value call of a function that is not translated")
@@ -2135,6 +2262,9 @@ func (t *impTr) rangeStmt(s *ast.RangeStmt, rest func() string) string {
 				args = append(args, t.ex(sel.X, &pre))
 			}
 			for _, a := range call.Args {
+				if id, ok := a.(*ast.Ident); ok && t.ioReader != nil && t.info.Uses[id] == t.ioReader {
+					continue // the reader is the stream state rd__, passed above
+				}
 				args = append(args, t.ex(a, &pre))
 			}
 			items := t.fresh()
@@ -2493,6 +2623,9 @@ func (t *impTr) function(fd *ast.FuncDecl, coqName string) *impFn {
 			if fn, ok := t.fns[o]; ok && fn.oracle {
 				t.oracle = true
 			}
+			if x := t.extFn(o); x != nil && x.oracle {
+				t.oracle = true
+			}
 			if fn, ok := t.fns[o]; ok && fn.stream {
 				t.calleeSty = fn.sty
 			}
@@ -2656,7 +2789,9 @@ func (t *impTr) function(fd *ast.FuncDecl, coqName string) *impFn {
 				resNames = append(resNames, t.nameOf(r))
 			}
 		}
+		t.inResTy = true
 		rt = t.ty(sig.Results())
+		t.inResTy = false
 		end := "Panics" // falling off the end of a function with results does not compile
 		if sig.Results().Len() == 0 {
 			end = "Ret tt"
@@ -2841,7 +2976,7 @@ func genImp(repo, out string) {
 			panic(fmt.Sprintf("type-checking %s: %v", want.dir, err))
 		}
 		t := &impTr{pkg: want.pkg, info: info, fset: fset, fns: map[types.Object]*impFn{}, globals: want.globals,
-			records: map[string]bool{}, join: want.join, floatAs: want.floatAs, errZ: want.errZ, heapType: want.heap}
+			records: map[string]bool{}, join: want.join, floatAs: want.floatAs, errZ: want.errZ, heapType: want.heap, optRes: want.optRes, optPtr: want.optPtr, ext: want.ext, extRecs: want.extRecs}
 		fmt.Fprintf(sb, "(* ---- package %s ---- *)\n", want.dir)
 		for _, fname := range want.funcs {
 			if strings.HasPrefix(fname, "var:") { // the initialiser of a package-level variable, as a constant
